@@ -10,7 +10,7 @@ import (
 	"github.com/Comcast/gots/v2/packet/adaptationfield"
 )
 
-func guard(f func() Val) (r Val) {
+func afGuard(f func() Val) (r Val) {
 	defer func() {
 		if e := recover(); e != nil {
 			r = VPanic()
@@ -35,7 +35,7 @@ func resBytes(b []byte, err error) Val {
 func afGetters(p *packet.Packet) Val {
 	before := *p
 	af := (*packet.AdaptationField)(p)
-	g := func(f func() Val) Val { return guard(f) }
+	g := func(f func() Val) Val { return afGuard(f) }
 	l := []Val{
 		g(func() Val { return VI(int64(af.Length())) }),
 		g(func() Val { return resBool(af.Discontinuity()) }),
